@@ -54,17 +54,24 @@ func (c *ctx) chunkerFacts() {
 	var boundary, minGuard ast.Expr
 	var bufFactor ast.Expr
 	if fd := c.funcDecl(c.files, "Chunker", "Next"); fd != nil {
-		walk(fd.Body, func(n ast.Node) bool {
-			ifs, ok := n.(*ast.IfStmt)
+		// the comparison may sit in an `if` of Next or in a helper Next calls (`return c.hValue%… == …`)
+		walkThrough(fd.Body, nil, func(n ast.Node) bool {
+			be, ok := n.(*ast.BinaryExpr)
 			if !ok {
 				return true
 			}
-			s := exprString(ifs.Cond)
-			if strings.Contains(s, "hDiscriminator") && boundary == nil {
-				boundary = ifs.Cond
-			}
-			if strings.Contains(s, "c.min") && strings.Contains(s, "len(c.buf)") && minGuard == nil {
-				minGuard = ifs.Cond
+			s := exprString(be)
+			switch be.Op {
+			case token.EQL, token.NEQ:
+				if strings.Contains(s, "hDiscriminator") && boundary == nil {
+					boundary = be
+					return false
+				}
+			case token.LSS, token.GTR, token.LEQ, token.GEQ:
+				if strings.Contains(s, "c.min") && strings.Contains(s, "len(c.buf)") && minGuard == nil {
+					minGuard = be
+					return false
+				}
 			}
 			return true
 		})
@@ -94,8 +101,8 @@ func (c *ctx) chunkerFacts() {
 				return true
 			}
 			for _, st := range fs.Body.List {
-				if ifs, ok := st.(*ast.IfStmt); ok {
-					order = append(order, exprString(ifs.Cond))
+				if _, ok := st.(*ast.IfStmt); ok {
+					order = append(order, "if") // how they are spelled does not matter, how many there are does
 				}
 			}
 			return false
@@ -198,39 +205,29 @@ func (c *ctx) verifyIndexFacts() {
 // callShape lists, in source order, the calls inside fd whose callee (as printed) ends with one
 // of the given suffixes; the label of the matching pattern is recorded.
 func (c *ctx) callShape(fd *ast.FuncDecl, pats [][2]string) []string {
-	type hit struct {
-		pos   token.Pos
-		label string
-	}
-	var hits []hit
+	var out []string
 	if fd == nil {
 		return nil
 	}
-	walk(fd.Body, func(n ast.Node) bool {
-		call, ok := n.(*ast.CallExpr)
-		if !ok {
-			return true
-		}
+	label := func(call *ast.CallExpr) string {
 		fn := exprString(call.Fun)
 		for _, p := range pats {
 			if strings.HasSuffix(fn, p[0]) {
-				hits = append(hits, hit{call.Pos(), p[1]})
-				break
+				return p[1]
+			}
+		}
+		return ""
+	}
+	// a call that matches a pattern is recorded and not looked into; any other call to a local helper is looked
+	// through, so that statements moved into a helper still show up where the helper is called
+	walkThrough(fd.Body, func(call *ast.CallExpr) bool { return label(call) != "" }, func(n ast.Node) bool {
+		if call, ok := n.(*ast.CallExpr); ok {
+			if l := label(call); l != "" {
+				out = append(out, l)
 			}
 		}
 		return true
 	})
-	// ast.Inspect visits in source order already, but nested calls (args before callee text) are
-	// ordered by position to be safe
-	for i := 1; i < len(hits); i++ {
-		for j := i; j > 0 && hits[j].pos < hits[j-1].pos; j-- {
-			hits[j], hits[j-1] = hits[j-1], hits[j]
-		}
-	}
-	out := make([]string, len(hits))
-	for i, h := range hits {
-		out[i] = h.label
-	}
 	return out
 }
 
